@@ -1,8 +1,84 @@
 import CnlDriver.CS
-/-! `C17` driver table (stub). -/
-namespace Cnl.Drv
-open Cnl
+import CnlDriver.FloatIO
+import CnlSpec.MakeFraction
+/-!
+`C17` driver table.
 
-def checkC17 (_toks : List String) (_res : String) : Option Verdict := none
+* `C17 cf …` — the `CF` sub-table validating `CnlModel.CFloat` against the hardware:
+  `cf bin <add|sub|mul|div> <fmt> <x> <y>`, `cf cmp <lt|…> <fmt> <x> <y>`, `cf neg <fmt> <x>`,
+  `cf i2f <ity> <fmt> <int>`, `cf f2i <fmt> <ity> <x>`, `cf f2f <src> <dst> <x>`
+  (floating values as C hex floats, results compared verbatim with glibc's `%a`/`%La`).
+* `C17 mf <fmt> <ity> <x>` — `cnl::fraction<ity>(x)`: result `num/den`, or `UB`, `UNREACHABLE`, `TIMEOUT`.
+-/
+namespace Cnl.Drv
+open Cnl Cnl.MakeFraction
+
+def checkCF (toks : List String) : Option Verdict :=
+  match toks with
+  | ["bin", op, fm, x, y] => do
+    let F ← parseFmt fm; let op' ← parseBinOp op; let x ← F.ofHex? x; let y ← F.ofHex? y
+    let r ← fBin F op' x y
+    let kind := match r with
+      | .nan => "/nan" | .inf _ => "/inf"
+      | .fin _ m e => if m = 0 then "/zero" else if e = F.qmin ∧ m < 2 ^ (F.prec - 1) then "/subnormal" else ""
+    some { model := showF F r, branch := "cf/" ++ op ++ "/" ++ fm ++ kind }
+  | ["cmp", op, fm, x, y] => do
+    let F ← parseFmt fm; let op' ← parseCmpOp op; let x ← F.ofHex? x; let y ← F.ofHex? y
+    some { model := showBool (fCmp op' x y), branch := "cf/" ++ op ++ "/" ++ fm }
+  | ["neg", fm, x] => do
+    let F ← parseFmt fm; let x ← F.ofHex? x
+    some { model := showF F x.neg, branch := "cf/neg/" ++ fm }
+  | ["i2f", it, fm, v] => do
+    let I ← parseIntTy it; let F ← parseFmt fm; let v ← v.toInt?
+    if ¬ I.InRange v then none else
+    some { model := showF F (F.ofInt v), branch := "cf/i2f/" ++ it ++ "/" ++ fm }
+  | ["f2i", fm, it, x] => do
+    let F ← parseFmt fm; let I ← parseIntTy it; let x ← F.ofHex? x
+    let r := fToInt I x
+    some { model := showRes (fun v => showTV (I, v)) r, branch := "cf/f2i/" ++ fm ++ "/" ++ it ++ (if r.isOk then "" else "/ub") }
+  | ["f2f", sf, df, x] => do
+    let S ← parseFmt sf; let D ← parseFmt df; let x ← S.ofHex? x
+    some { model := showF D (D.cvt x), branch := "cf/f2f/" ++ sf ++ "/" ++ df }
+  | _ => none
+
+/-- fuel given to the model's loop: the harness's per-case alarm allows far fewer iterations of
+the real loop than would be needed to exhaust a *terminating* search of this length -/
+def mfFuel : Nat := 20000
+
+def showFrac (fr : Frac) : String := toString fr.num ++ "/" ++ toString fr.den
+
+def parseFrac (s : String) : Option Frac :=
+  match s.splitOn "/" with
+  | [a, b] => do let a ← a.toInt?; let b ← b.toInt?; some ⟨a, b⟩
+  | _ => none
+
+def exitName : Exit → String
+  | .left0 => "left0" | .right0 => "right0" | .mid => "mid" | .jumpEq => "jump_eq" | .zeroJump => "zero_jump"
+
+def checkMF (fm it xs : String) (res : String) : Option Verdict := do
+  let F ← parseFmt fm; let I ← parseIntTy it; let x ← F.ofHex? xs
+  let r := makeFractionX F I x mfFuel
+  let model := showRes (fun p => showFrac p.1) r
+  let dom := MakeFractionSpec.inDomain I x
+  -- the oracle judges the implementation's own result
+  let (spec, clause) : Option Bool × String :=
+    if !dom then (none, "") else
+    match parseFrac res with
+    | some fr =>
+      match MakeFractionSpec.violated I x fr with
+      | none => (some true, "")
+      | some c => (some false, c.toString)
+    | none => (some false, res)
+  let branch := match r with
+    | .ok p => exitName p.2
+    | _ => model
+  some { model := model, spec := spec, cls := "", branch := "mf/" ++ fm ++ "/" ++ it ++ "/" ++ branch ++ (if clause.isEmpty then "" else "!" ++ clause),
+         nontrivial := dom }
+
+def checkC17 (toks : List String) (res : String) : Option Verdict :=
+  match toks with
+  | "cf" :: rest => checkCF rest
+  | ["mf", fm, it, x] => checkMF fm it x res
+  | _ => none
 
 end Cnl.Drv
